@@ -25,7 +25,7 @@ RULE = ("(template, substrate, direction, strategy, hydrogen mode) with template
         "hand-made rule, or a synthetic ITS graph planted on a random host; non-trivial = at least one glued result and a "
         "template with >= 2 changed bonds; distinct = distinct (template, substrate, configuration)")
 EXHAUSTIVE = {"quick": False, "thorough": False}
-EXPLANATION = ("77 theorems (coq/props/C03.v) about the Gallina model of SynReactor._glue_graph/_node_glue, _invert_template, _explicit_h, "
+EXPLANATION = ("79 theorems (coq/props/C03.v) about the Gallina model of SynReactor._glue_graph/_node_glue, _invert_template, _explicit_h, "
                "h_to_explicit and SynRule.__init__ (implicit-template mode; default mode for templates without explicit H atoms): for every host, rule and valid match the reactant side of the glued ITS "
                "(on its_decompose, what _to_smarts serialises) is the substrate; element counts incl. hydrogen and total charge agree on both "
                "sides for a balanced rule (and differ by exactly the rule's imbalance otherwise); changed bonds = image of the rule's bonds with "
@@ -660,7 +660,9 @@ def _impl_one(case):
     obs.append(0 if rec.its_err is None else 1)
     obs.append(1)                            # wf_rcb rule.rc && wf_hostb host (recomputed by the model)
     obs.append(1)                            # the explicit-hydrogen route is taken exactly when the pattern keeps X-H (model: flag vs re-matches)
-    obs = [obs, 1]                           # rule_link_okb: the rule's left graph is the reactant side of its rule graph (model recomputes it)
+    # rule_link_okb: the rule's left graph is the reactant side of its rule graph (model recomputes it);
+    # default_tpl_okb: do the default-mode end-to-end theorems apply to this template?  (computed independently on both sides)
+    obs = [obs, 1, K.default_tpl_ok(*_its_json(rec.tpl))]
     if case.get("reads"):
         return [obs, 1 if rec.reads_ok else 0]   # repeated reads of the cached attributes all gave the first value
     if pre is not None and pre.get("script") is not None:
@@ -704,7 +706,10 @@ def coq_case(case):
     t = "%s %s %s %s %s %s %s %s" % ("run_c03ro" if case.get("tpl_form") == "synrule" else "run_c03o", K.cb(case.get("invert", False)), K.cb(mode == "I"), K.cb(mode == "E"), host, tpl, K.cl(calls), tbls)
     # the prepared rule's left graph IS the reactant side of its rule graph as far as matching goes (hypothesis of
     # C03_its_list_instances_matcher that concerns the rule alone): evaluated on every case
-    t = "L [%s; tbool (rule_link_okb (mk_rule %s %s %s %s))]" % (t, K.cb(case.get("invert", False)), K.cb(mode == "I"), K.cb(case.get("tpl_form") == "synrule"), tpl)
+    # ... and the template-side hypotheses of the default-mode capstones as one boolean of the template as written (default_tpl_okb;
+    # the implementation side computes it independently: K.default_tpl_ok)
+    t = "L [%s; tbool (rule_link_okb (mk_rule %s %s %s %s)); tbool (default_tpl_okb %s)]" % (
+        t, K.cb(case.get("invert", False)), K.cb(mode == "I"), K.cb(case.get("tpl_form") == "synrule"), tpl, tpl)
     if case.get("reads"):
         return "L [%s; tbool true]" % t
     if pre.get("script") is not None:
@@ -830,8 +835,8 @@ def _flat(case, obs):
         obs = obs[0]
     elif (case.get("pre") or {}).get("script") is not None and isinstance(obs, list) and len(obs) == 3 and isinstance(obs[0], list):
         obs = obs[0]
-    if isinstance(obs, list) and len(obs) == 2 and isinstance(obs[0], list) and obs[1] == 1 and len(obs[0]) >= 4:
-        obs = obs[0]                         # [standard observable, rule_link bit]
+    if isinstance(obs, list) and len(obs) == 3 and isinstance(obs[0], list) and obs[1] == 1 and obs[2] in (0, 1) and len(obs[0]) >= 4:
+        obs = obs[0]                         # [standard observable, rule_link bit, default_tpl_ok bit]
     return [(case, obs)]
 
 
@@ -888,6 +893,9 @@ def distribution(cases, obss):
                 if g[2]:
                     d["explicit_h_stage"] += 1
         tn = (pre.get("tpl") or [[], []])[0]
+        if c.get("mode", "E") != "I" and pre.get("tpl"):
+            k = "default_mode_end_to_end_theorem_applies" if K.default_tpl_ok(*pre["tpl"]) else "default_mode_template_outside_the_end_to_end_theorem"
+            d[k] = d.get(k, 0) + 1
         if any(g[3] != h[3] for _, g, h in tn):
             d["charge_changing_templates"] += 1
         if any(g[2] != h[2] for _, g, h in tn) or any(g[0] == "H" for _, g, h in tn):
@@ -1074,7 +1082,7 @@ def gen_cases(tier, rng):
     return prepare_all(cases)
 
 
-LEVEL_TEXT = ("Machine-checked proof (Coq, 77 theorems, all closed under the global context) over an executable model of gluing a rule onto a "
+LEVEL_TEXT = ("Machine-checked proof (Coq, 79 theorems, all closed under the global context) over an executable model of gluing a rule onto a "
               "substrate along a match (SynReactor._glue_graph/_node_glue), _invert_template, _explicit_h, h_to_explicit and SynRule.__init__ "
               "(implicit-template mode; default mode for templates without explicit hydrogen atoms): for EVERY substrate graph, rule graph and valid match (boolean hypotheses wf_hostb, wf_rcb, match_rcb) "
               "(a) the reactant molecule graph of the glued ITS is the substrate (same atoms in the same order, same bonds), (b) every element "
